@@ -101,10 +101,13 @@ func TestC02(t *testing.T) {
 		})
 	}
 	k := 0
+	seenSc := map[string]int{}
 	// closures run in batches while the search proceeds, so that the start states need not all be kept in memory
 	runWorld(t, run, c02Scenarios(), nil, 0, func(sc *w.Scenario, s *w.State, d int) {
 		k++
-		if k%every == 0 || d == 0 {
+		seenSc[sc.Name]++
+		// the first 2000 states of a scenario (breadth first: the shallow ones) all start a closure, then every 4th
+		if k%every == 0 || d == 0 || seenSc[sc.Name] <= 2000 {
 			starts = append(starts, start{sc, s})
 			if len(starts) >= 20000 {
 				flush()
